@@ -105,6 +105,20 @@ def run(chk):
             bad = (2 * mi, why)
     for t, ops in hs[:1] + hs[len(hs) // 2:len(hs) // 2 + 2]:
         chk.sample({"history": ops})
+    # evaluator level: releasing the qubits of a dying object is the sampling reset — an outside qubit entangled with one collapses to the sampled branch, it is not post-selected
+    import qobjgen
+    qprogs, qout, qinc = qobjgen.run_family(chk.rng, 600 if chk.thorough else 120)
+    qbad = None
+    for qp, ql in zip(qprogs, qout):
+        chk.count(("qobj", qp.text) if ql.startswith("ok ") else None)
+        w = qobjgen.judge(qp, ql, "ent")
+        if w and qbad is None:
+            qbad = (qp, ql, w)
+    chk.extra["evaluator_level_programs"] = len(qprogs)
+    if qbad:
+        qp, ql, w = qbad
+        chk.violation("quantum object program (constant draw %.1f): %s\n%s" % (qp.draw, w, qp.text[-900:]),
+                      {"source": qp.text, "draw": qp.draw, "kind": "qobj", "clause": "ent"})
     if bad:
         hi, why = bad
         ops = hs[hi][1]
@@ -115,4 +129,12 @@ def run(chk):
 
 
 def replay(path):
+    import json as _json
+    _o = _json.load(open(path))
+    if _o.get("kind") == "qobj":
+        import evallib, qobjgen
+        from framework import run_guarded
+        out, _ = run_guarded(evallib.harness(), ["run %s 1 %s" % (evallib.hx(_o["source"]), evallib.draws_arg([_o["draw"]] * 400))])
+        print(_o["source"]); print(" ->", evallib.split_result(out[0]).get("echo_lines", out[0][:200]), evallib.split_result(out[0]).get("tracked"))
+        return 1
     return simlib.generic_replay(path, "reset-locality oracle", oracle_fails)
